@@ -69,6 +69,7 @@ SmallCases ==
     \cup {[fam |-> "compound", op |-> op, a |-> a, b |-> b, c |-> c] :
              op \in {"+", "-", "*", "<<", "&"}, a \in {IntV(1), StrV(<<97>>)}, b \in {IntV(5)}, c \in {IntV(2), StrV(<<98>>)}}
     \cup {[fam |-> "bin", op |-> op, a |-> a, b |-> b] : op \in {"in", "instanceof", "===", "!=="}, a \in Vals \cup Fns, b \in Fns}
+    \cup {[fam |-> "bin", op |-> "instanceof", a |-> a, b |-> b] : a \in Vals \cup Fns, b \in {[t |-> "fn", name |-> "FNP"], [t |-> "fn", name |-> "FBP"]}}
     \cup {[fam |-> f, op |-> op] : f \in {"order1", "order2"},
              op \in {"+", "-", "*", "/", "%", "<", ">", "<=", ">=", "==", "!=", "&", "|", "^", "<<", ">>", ">>>"}}
     \cup {[fam |-> "bin", op |-> op, a |-> NumV(a), b |-> NumV(b)] :
